@@ -61,6 +61,26 @@ MUTANTS = [
 ]
 
 MUTANTS += [
+    ('c16_busy_wait_empty', 'C16', 'completion awaited by spinning on queue emptiness (no sleep, no join)', [
+        (CU, "    compression_queue.join()\n    writing_queue.join()\n",
+             "    while not compression_queue.empty():\n        pass\n"
+             "    while not writing_queue.empty():\n        pass\n")]),
+    ('c16_prefetch_thread_joined_late', 'C16', 'plane set read by a helper thread that is joined only after the hand-over', [
+        (CU, "            io_thread_func(blockshape, store_headers, headers_dict, geom, plane_set_id, planes_to_read,\n"
+             "                           seismic_buffer, seismicfile, minimal_il_reader, trace_length)\n\n"
+             "        for i in range(planes_to_read):\n            hash_object.update(seismic_buffer[i, 0:n_xlines, 0:trace_length].copy())\n\n"
+             "        if blockshape[0] == 4:\n            queue.put(seismic_buffer)\n",
+             "            t_io = Thread(target=io_thread_func, args=(blockshape, store_headers, headers_dict, geom, plane_set_id,\n"
+             "                                                      planes_to_read, seismic_buffer, seismicfile,\n"
+             "                                                      minimal_il_reader, trace_length))\n"
+             "            t_io.start()\n            if blockshape[0] != 4:\n                t_io.join()\n\n"
+             "        if blockshape[0] == 4:\n            queue.put(seismic_buffer)\n"
+             "            if not isinstance(geom, InferredGeometry3d):\n                t_io.join()\n\n"
+             "        for i in range(planes_to_read):\n            hash_object.update(seismic_buffer[i, 0:n_xlines, 0:trace_length].copy())\n\n"
+             "        if blockshape[0] == 4:\n            pass\n")]),
+]
+
+MUTANTS += [
     # ---------------------------------------------------------------- C17
     ('c17_xl_futures_dropped', 'C17', 'crossline fan-out no longer collects its futures', [
         (LD, "                       for chunk_num in range(self.shape_pad[0] // 4)]\n        self._raise_worker_exceptions(futures)\n",
